@@ -45,6 +45,16 @@ def derive_source(case, schema_rel, query_rel):
         keys.append("skip_serializing_none")
     if o.get("extern_enums"):
         keys.append("extern_enums(%s)" % ", ".join(attr_lit(e) for e in o["extern_enums"]))
+    # the order of the attribute's items is the user's choice: a different (deterministic) order per case
+    import random as _random
+    _r = _random.Random("attr-order:" + str(case.get("id")))
+    _r.shuffle(keys)
+    # a bare flag (no `= value`) directly in front of another item is the layout a token-skipping parser gets wrong: in half
+    # of the cases that carry the flag it stands directly before the item the calling check cares about (or a random one)
+    if "skip_serializing_none" in keys and len(keys) > 1 and _r.random() < 0.5:
+        keys.remove("skip_serializing_none")
+        focus = [i for i, k in enumerate(keys) if case.get("attr_focus") and k.startswith(case["attr_focus"])]
+        keys.insert(focus[0] if focus else _r.randrange(len(keys)), "skip_serializing_none")
     vis = {"pub": "pub ", "pub(crate)": "pub(crate) ", "inherited": "", None: ""}[o.get("visibility")]
     rust = (o.get("normalization") or "").strip().lower() == "rust"
     for op in doc["operations"]:
